@@ -212,7 +212,8 @@ PROPS["C15"] = dict(
 )
 
 PROPS["C14"] = dict(
-    units=[dict(name="c14", src="props/c14.cpp", deps=["lib/pwc.hpp", "lib/exactsum.hpp"])],
+    units=[dict(name="c14-mpi-shim", src="props/c04.cpp", floor_exempt=True, deps=["lib/shim/mpi.h"], flags=["-DVERIF_T=float", "-DVERIF_AS=14", "-I", "@HERE@/lib/shim", "-pthread"], libs=["-ldl", "-pthread"], quick=dict(shards=2, cases=250), thorough=dict(shards=4, cases=8000)),
+           dict(name="c14", src="props/c14.cpp", deps=["lib/pwc.hpp", "lib/exactsum.hpp"])],
     rule="case = numeric type x N (1..10^5 quick, ..10^7 thorough) x one of 10 value patterns (one large then many "
          "eps/4, alternating with cancellation, geometric decay over 40 binades, random magnitudes over 20 decades with "
          "random signs, ascending, descending, equal 0.1, zeros with rare large, ...) optionally negated, scaled by "
@@ -261,7 +262,8 @@ PROPS["C02"] = dict(
 )
 
 PROPS["C06"] = dict(
-    units=[dict(name="c06", src="props/c06.cpp", deps=["lib/pwc.hpp"])],
+    units=[dict(name="c06-mpi-shim", src="props/c04.cpp", floor_exempt=True, deps=["lib/shim/mpi.h"], flags=["-DVERIF_T=double", "-DVERIF_AS=6", "-I", "@HERE@/lib/shim", "-pthread"], libs=["-ldl", "-pthread"], quick=dict(shards=2, cases=250), thorough=dict(shards=4, cases=8000)),
+           dict(name="c06", src="props/c06.cpp", deps=["lib/pwc.hpp"])],
     rule="case = numeric type x integrator x 2..5 iterations of 10..2000 calls x integrand family (4) x 0..2 distributions "
          "(1-d, 2-d) x poison set: shape {empty, first call, last call, one in the middle, all, 2 %, probability p} x kind "
          "{mixed, NaN, +inf, -inf} x source {return value, distribution datum (per datum), multi-channel weight: NaN / inf "
@@ -309,7 +311,8 @@ PROPS["C11"] = dict(
 )
 
 PROPS["C10"] = dict(
-    units=[dict(name="c10-float", src="props/c10.cpp", flags=["-DVERIF_T=float"]),
+    units=[dict(name="c10-mpi-shim", src="props/c04.cpp", floor_exempt=True, deps=["lib/shim/mpi.h"], flags=["-DVERIF_T=double", "-DVERIF_AS=10", "-I", "@HERE@/lib/shim", "-pthread"], libs=["-ldl", "-pthread"], quick=dict(shards=2, cases=250), thorough=dict(shards=4, cases=8000)),
+           dict(name="c10-float", src="props/c10.cpp", flags=["-DVERIF_T=float"]),
            dict(name="c10-double", src="props/c10.cpp", flags=["-DVERIF_T=double"]),
            dict(name="c10-ldouble", src="props/c10.cpp", flags=["-DVERIF_T=long double"])],
     rule="case = engine (nine standard engines; synthetic ranges of size 2, 3, 2^7, 2^14, 2^16+1, 2^31-1, 2^32-5, "
@@ -432,7 +435,8 @@ PROPS["C20"] = dict(
 )
 
 PROPS["C01"] = dict(
-    units=[dict(name="c01", src="props/c01.cpp", deps=["lib/pwc.hpp"])],
+    units=[dict(name="c01-mpi-shim", src="props/c04.cpp", floor_exempt=True, deps=["lib/shim/mpi.h"], flags=["-DVERIF_T=double", "-DVERIF_AS=1", "-I", "@HERE@/lib/shim", "-pthread"], libs=["-ldl", "-pthread"], quick=dict(shards=2, cases=250), thorough=dict(shards=4, cases=8000)),
+           dict(name="c01", src="props/c01.cpp", deps=["lib/pwc.hpp"])],
     rule="case = numeric type x integrand (sum of 1..3 multilinear terms prod_k (a_k + b_k x_k), coefficients of either sign, "
          "1/5 of the cases f == 1) x one of: PLAIN (1-4 dims, lattice M^d); VEGAS (1-3 dims, 2..128 bins, 1-4 sub-points per "
          "bin, grid uniform / user incl. zero-width bins / power law / adapted by 1-6 real refinements, through "
